@@ -660,6 +660,8 @@ class SimNinja:
             watcher = None
             try:
                 watcher = inotify.Watcher(real_bdir)
+                for dp, _dns, _fns in os.walk(w.tmpdir):
+                    watcher._add(dp)
             except OSError:
                 pass
             pid = zygote.launch(
@@ -675,9 +677,10 @@ class SimNinja:
                 watcher.close()
             reads, writes = w.settle()
             # scratch files that came and went while the step ran are writes of this step too
-            transient = sorted(p for p in touched if not os.path.lexists(p) and os.path.basename(p) != LOG_NAME)
+            transient = sorted(p for p in touched if os.path.basename(p) != LOG_NAME and (not os.path.lexists(p) or w.is_under(p, w.tmpdir)))
             if transient:
-                rec["transient"] = [w.rel(p) for p in transient]
+                # names in TMPDIR are usually random (mkstemp): they take part in the race detection below but stay out of the event log
+                rec["transient"] = [w.rel(p) for p in transient if not w.is_under(p, w.tmpdir)]
                 writes = set(writes) | set(transient)
             if f is not None and f["kind"] == "fail_after":
                 st = ("exit", 1)
@@ -693,8 +696,9 @@ class SimNinja:
                 if op_ in writes or any(x.startswith(op_ + os.sep) for x in writes):
                     w.last_write[(real_bdir, o)] = {"ok": st == ("exit", 0), "inv": w.inv_count}
             rec["reads"] = sorted(w.rel(p) for p in reads)
-            rec["writes"] = sorted(w.rel(p) for p in writes)
-            rec["wdigests"] = {w.rel(p): w.digest(p) for p in sorted(writes)}
+            logged = sorted(p for p in writes if not w.is_under(p, w.tmpdir))
+            rec["writes"] = [w.rel(p) for p in logged]
+            rec["wdigests"] = {w.rel(p): w.digest(p) for p in logged}
             # ---- happens-before / declared-access monitor
             allowed = self._closure(mf, e, anc(e))
             rspf = mf.binding(e, "rspfile")
@@ -724,7 +728,7 @@ class SimNinja:
                     continue
                 if p in writes:
                     # undeclared scratch output: remember who made it
-                    if w.is_under(p, real_bdir):
+                    if w.is_under(p, real_bdir) or w.is_under(p, w.tmpdir):
                         prev = w.observed_owner.setdefault(real_bdir, {}).get(p)
                         if prev is not None and prev != e.outs[0]:
                             pe = mf.prod.get(prev)
